@@ -30,7 +30,12 @@ LEVEL_TEXT = ("Proof: for every list of events (any length, duplicates, any orde
               "the caller's catalog in place; count every kept event once in its own cell and bin; equal the catalog-level "
               "arrays when nothing is filtered), the _bin_catalog_* helpers (= the partition-based counts), get_mag_idx / "
               "get_spatial_idx / dataframe columns (= the indices the count arrays use) and the bounding-box view "
-              "get_cartesian / spatial_counts(cartesian=True) (value of a cell at its own position, NaN elsewhere).")
+              "get_cartesian / spatial_counts(cartesian=True) (value of a cell at its own position, NaN elsewhere). The "
+              "hypothesis 'the lookups return indices inside the arrays' of the conservation / marginal theorems is discharged for "
+              "both pipelines (smc_pipeline_cart / _quad). Which bins a call uses is in the model for every state of the region "
+              "(bins / None / no attribute / no region) and every call sequence: explicit bins win and leave the region alone, "
+              "region-bound calls are history independent, the default CSEP_MW_BINS branch and retbins included; the array "
+              "CatalogForecast.get_expected_rates divides by n_cat is the count matrix of all catalogs' events or the call is rejected.")
 LEVEL_NOTE = ("Events enter the model after the two lookups (cell, bin); the lookups themselves are the exact ones of C01 / C02 "
               "and the generated coordinates and magnitudes avoid the round-off band below an edge (they are on an edge or "
               "well inside), so both the recount and the model are unambiguous.")
@@ -54,14 +59,23 @@ THEOREMS = ["Gridding.smc_ok_iff", "Gridding.smc_entry", "Gridding.smc_entry_pip
             "Gridding.bin_catalog_smc_agree", "Gridding.spatial_idx_cart_eq", "Gridding.spatial_idx_counts_cart",
             "Gridding.mag_idx_counts", "Gridding.df_columns_cart_ok_iff", "Gridding.df_groupby_eq_counts_cart",
             "Gridding.df_columns_quad_ok_iff", "Gridding.cartesian_places_cell", "Gridding.cartesian_nan_iff",
-            "Gridding.gridded_cartesian_entry", "Gridding.marked_cartesian_entry"]
+            "Gridding.gridded_cartesian_entry", "Gridding.marked_cartesian_entry",
+            # whole pipelines, bins over call sequences, accumulation over a forecast (Properties/C03_Seq.lean)
+            "Gridding.pipeline_cart_inRange", "Gridding.pipeline_quad_inRange", "Gridding.smc_pipeline_cart",
+            "Gridding.smc_pipeline_quad", "Gridding.smc_sum_mag_quad", "Gridding.occupancy_quad", "Gridding.gcall_state",
+            "Gridding.explicit_bins_win", "Gridding.calls_history_independent", "Gridding.calls_history_independent_unset",
+            "Gridding.default_bins_installed", "Gridding.retbins_same_counts", "Gridding.gcall_mc_entry",
+            "Gridding.expected_counts_ok_iff", "Gridding.expected_counts_entry", "Gridding.expected_counts_single",
+            "Gridding.expected_counts_rejects"]
 TRUSTED = ["Lean 4.33 kernel", "axioms: propext, Classical.choice, Quot.sound at most",
            "numpy.add.at(out, idx, 1) adds one per occurrence; out[idx] = 1 sets (modelled as folds over the index list)",
            "region and magnitude lookups are the exact ones away from the round-off band (properties C01 / C02 / C17)",
            "numpy.add.at with a pair of index arrays broadcasts them (modelled: equal lengths pairwise, a length-1 array "
            "repeated, IndexError otherwise); pandas rejects a column of the wrong length; float(str(x)) == x for the bounds "
            "and the minimum edge the quadtree helpers print into their filter statements",
-           "harness/c03.py, harness/c03_helpers.py generators, exact recount and comparison; driver parsing (Proto.lean)"]
+           "exception classes of configuration errors (no region / no bins) are not compared, only raise-vs-return; the iteration "
+           "protocol of CatalogForecast is C13's subject, here only the gridding and the accumulation of get_expected_rates",
+           "harness/c03.py, harness/c03_helpers.py, harness/c03_seq.py generators, exact recount and comparison; driver parsing (Proto.lean)"]
 RULE = ("catalogs of 0..400 events (duplicates, events on cell corners / edges and on magnitude edges, controlled fraction "
         "outside the region / in holes / below the minimum magnitude, shuffled) on Cartesian lattices (holes, masks, 1xn, "
         "single cell) and quadtree grids (single resolution zoom 1-3, random multi-resolution quadkey sets with gaps); "
@@ -77,7 +91,11 @@ RULE = ("catalogs of 0..400 events (duplicates, events on cell corners / edges a
         "Call sequences: 500 (5000 thorough) sequences of 4-9 gridding calls on ONE catalog object bound to ONE region object "
         "(explicit bins A, region-bound, explicit bins B, region-bound again ...; spatial_magnitude_counts, magnitude_counts, "
         "get_mag_idx, spatial_counts, spatial_event_probability, to_dataframe), every step compared with the exact recount "
-        "for the bins that step must use, the bins bound to the region unchanged afterwards")
+        "for the bins that step must use, the bins bound to the region unchanged afterwards. Region states: 450 (4500) sequences "
+        "with the region carrying bins / magnitudes None / no magnitudes attribute / no region at all, magnitude_counts with and "
+        "without retbins, every configuration-error branch (must raise), the default CSEP_MW_BINS branch; 350 (3500) forecasts of "
+        "1-8 catalogs (some empty, some bound to another region, list or generator source) through get_expected_rates. The class "
+        "in c03_seq.AWAITING_DECISION (magnitude_counts() without bins on a region without bins / without region) is not generated.")
 
 
 
@@ -310,7 +328,10 @@ def check_case(run, drv, pending, case, region, kind, cell_of, ncell, edges, evs
             problems.append(f"total of the space-magnitude array {sum(map(sum, smc))} != number of events {n}")
         if sc != "E" and [sum(r) for r in smc] != sc:
             problems.append("sum over magnitude != spatial_counts")
-        if [sum(r[k] for r in smc) for k in range(len(edges))] != mc:
+        if any(len(r) != len(edges) for r in smc) or len(smc) != ncell:
+            problems.append(f"space-magnitude array has shape ({len(smc)}, {sorted(set(len(r) for r in smc))}), the grid is "
+                            f"({ncell}, {len(edges)})")
+        elif [sum(r[k] for r in smc) for k in range(len(edges))] != mc:
             problems.append("sum over space != magnitude_counts")
     if sc != "E" and sep != "E" and isinstance(sc, list) and isinstance(sep, list):
         if [1 if v > 0 else 0 for v in sc] != sep:
@@ -654,6 +675,9 @@ def run(run, rng, tier):
         c = json.load(open(path))
         if c.get("kind") == "seq":
             seq_case(run, drv, pending, c)
+        elif c.get("kind") in ("stateseq", "expected"):
+            from . import c03_seq
+            c03_seq.replay(run, c, Driver)
         elif c.get("kind") in hp.KINDS:
             (hp.check_qthelper if c["kind"] == "qthelper" else hp.check_cartview)(run, hdrv, hpend, c)
         else:
@@ -670,6 +694,9 @@ def run(run, rng, tier):
         if len(hpend) >= 80:
             hp.flush(run, hdrv, hpend)
     hp.flush(run, hdrv, hpend)
+    # region states (bins / None / attribute missing / no region), retbins, error branches; get_expected_rates accumulation
+    from . import c03_seq
+    c03_seq.run_all(run, random.Random(rng.randrange(2 ** 62)), tier, Driver)
     srng = random.Random(rng.randrange(2 ** 62))
     for k in range(500 if tier == "quick" else 5000):
         seq_case(run, drv, pending, gen_seq_case(srng, tier))
@@ -692,6 +719,10 @@ def replay(run, payload):
         return
     if payload["case"].get("kind") in hp.KINDS:
         hp.replay(run, payload["case"])
+        return
+    if payload["case"].get("kind") in ("stateseq", "expected"):
+        from . import c03_seq
+        c03_seq.replay(run, payload["case"], Driver)
         return
     if payload["case"].get("kind") == "seq":
         drv, pending = Driver(), []
